@@ -290,7 +290,7 @@ func (a *agg) judge(o *outcome, final bool) (retry bool) {
 
 func main() {
 	run := verdict.Start("C17", "exploration",
-		"scenario = state of a running proxy at the instant its context is cancelled: PRNG-chosen numbers (0..8) of clients stalled mid-handshake (no bytes / half a ClientHello), handshaked-silent HTTP/1.1, idle keep-alive HTTP/1.1, idle HTTP/2, in-flight HTTP/2 requests, in-flight HTTP/1.1 exchanges (held at the backend by a gate; handler ignoring or honouring its context), new connections racing with / following the cancel; cancel by context (once, twice), by closing the inner HTTP/1.1 server, both, before Serve, right after starting Serve; thorough adds the real binary under SIGTERM/SIGINT; distinct by cancel mode x per-ingredient count class (0,1,2-4,5-8) x release order x hold class")
+		"scenario = state of a running proxy at the instant its context is cancelled: PRNG-chosen numbers (0..8) of clients stalled mid-handshake (no bytes / half a ClientHello), handshaked-silent HTTP/1.1, idle keep-alive HTTP/1.1, idle HTTP/2, in-flight HTTP/2 requests, in-flight HTTP/1.1 exchanges (held at the backend by a gate; handler ignoring or honouring its context), new connections racing with / following the cancel; cancel by context (once, twice), by closing the inner HTTP/1.1 server, both, before Serve, right after starting Serve; plus the real binary under SIGTERM/SIGINT (4 runs quick, 20 thorough); distinct by cancel mode x per-ingredient count class (0,1,2-4,5-8) x release order x hold class")
 	rig.Quiet(nil)
 	rig.Certs()
 	a := &agg{run: run, lat: map[string][]float64{}}
@@ -361,13 +361,13 @@ func main() {
 		a.judge(o, true)
 	}
 
-	if run.Thorough() {
+	{ // the real binary under SIGTERM / SIGINT: four runs in the quick tier, twenty in the thorough one
 		bin, err := buildBinary()
 		if err != nil {
 			run.Inconclusive("build of the real binary failed: %v", err)
 		} else {
 			rng := rand.New(rand.NewSource(run.Seed*7717 + 5))
-			for i := 0; i < 20; i++ {
+			for i := 0; i < run.Pick(4, 20); i++ {
 				sp := Spec{ID: 100000 + i, Seed: run.Seed*1009 + int64(i), Mode: "binary", Signal: []string{"SIGTERM", "SIGINT"}[i%2]}
 				if i >= 2 {
 					sp.IdleH1, sp.IdleH2, sp.Stalled0, sp.StalledHalf = rng.Intn(5), rng.Intn(5), rng.Intn(4), rng.Intn(4)
@@ -386,7 +386,7 @@ func main() {
 				}
 				a.account(o)
 			}
-			run.Require("signal_runs_exited", 18)
+			run.Require("signal_runs_exited", int64(run.Pick(4, 18)))
 		}
 		removeBinary()
 	}
